@@ -332,7 +332,7 @@ def run(res, replay=None, mode="c01"):
                     res.oracle_failures.append((d, w))
     for i in range(nh):
         mem = rng.choice([180, 240, 400, 1200])
-        md = ["small", "big", "grow", "aborts", "grow"][i % 5] if mode == "c01" else ["aborts", "abortgrow", "big", "abortgrow", "small", "grow"][i % 6]
+        md = ["small", "big", "grow", "aborts", "grow", "wide"][i % 6] if mode == "c01" else ["aborts", "abortgrow", "wide", "big", "abortgrow", "small", "grow", "wide"][i % 8]
         for d, w in check_history(rng, res, md, mem, rng.randrange(6, 15), 40 if res.tier == "quick" else 150):
             if len(res.oracle_failures) < 5:
                 res.oracle_failures.append((d, w))
